@@ -165,6 +165,11 @@ def run_sessions(ctx, cfg, stream, plans):
                 ctx.inconclusive += 1
                 per_sess.append([])
                 continue
+            if not ctx.claim_cookie(a["seq"], (e.cip, e.sip, sp, dp)):
+                # birthday collision with an earlier session of this table (thousands pile up): that session's control block
+                # would be continued - the recorded cookie-collision finding, not a segmentation effect; session dropped
+                per_sess.append([])
+                continue
             ack = (a["seq"] + 1) & 0xFFFFFFFF
             seq = (isn + 1) & 0xFFFFFFFF
             segs = []
@@ -267,7 +272,7 @@ def shard(ctx, budget_s, n_http, n_rpc, maxlen):
                           frames=[ref[0][0][3]], extra={"stream": stream.hex()})
             continue
         # cross-check the grammar's trigger byte against the byte-wise run
-        bw = [segs for cuts, segs in res if cuts == list(range(1, len(stream)))]
+        bw = [segs for cuts, segs in res if cuts == list(range(1, len(stream))) and segs]
         okind = kind
         if kind == "http_neg" and ref_payload is not None:
             # whether such a stream *should* be answered is C13's business; that it is answered in one piece makes it, for
